@@ -68,6 +68,39 @@ pub fn iter_def<const N: usize>() {
     crate::witness!(true, "end reachable");
 }
 
+/// C03 glue: a K-letter prefix of an N-letter word shares a gram with the word (its 1-letter
+/// start), so the index lists the record for the prefix query (given IDX completeness).
+pub fn prefix_shares_gram<const N: usize, const K: usize>() {
+    let w = any_txt::<N, 1>([(0, N)], true, Mode::Plain);
+    let mut p = any_txt::<K, 1>([(0, K)], false, Mode::Plain);
+    let mut i = 0;
+    while i < K { p.chars[i] = w.chars[i]; i += 1; }
+    let gw = TrigramIndex::verif_collect_grams(&w.text());
+    let gp = TrigramIndex::verif_collect_grams(&p.text());
+    let mut common = 0;
+    let mut i = 0;
+    while i < gp.len() {
+        let mut j = 0;
+        while j < gw.len() { if geq(&gp[i], &gw[j]) { common += 1; } j += 1; }
+        i += 1;
+    }
+    assert!(common >= 1, "C03: a prefix of a title word shares no gram with the word");
+    // collect_grams returns the gram SET of the definition: strictly increasing, and exactly the grams of `grams`
+    let (def, nd_) = grams(&w);
+    assert!(gw.len() == nd_, "C18: collect_grams size differs from the number of distinct grams");
+    let mut i = 0;
+    while i < gw.len() {
+        if i > 0 { assert!(gw[i - 1] < gw[i], "C18: collected grams not strictly increasing (duplicates)"); }
+        let mut found = false;
+        let mut j = 0;
+        while j < nd_ { if geq(&gw[i], &def[j]) { found = true; } j += 1; }
+        assert!(found, "C18: collected gram is not a gram of the word");
+        i += 1;
+    }
+    crate::witness!(N < 2 || gw.len() >= 2, "more than one gram reachable");
+    std::mem::forget(gw); std::mem::forget(gp);
+}
+
 /// K records, each one text of N characters with W words at `rspans` (positions 0..K as
 /// `Store::add` assigns them), then `prepare(query, size)`; the query has QN characters and QW
 /// words at `qspans`. All characters symbolic.
@@ -171,6 +204,9 @@ macro_rules! cases {
 cases! {
     idx_iter_0 = iter_def::<0>(); idx_iter_1 = iter_def::<1>(); idx_iter_2 = iter_def::<2>(); idx_iter_3 = iter_def::<3>();
     idx_iter_4 = iter_def::<4>(); idx_iter_5 = iter_def::<5>(); idx_iter_6 = iter_def::<6>();
+    idx_pre_1_1 = prefix_shares_gram::<1, 1>(); idx_pre_2_1 = prefix_shares_gram::<2, 1>(); idx_pre_2_2 = prefix_shares_gram::<2, 2>();
+    idx_pre_3_1 = prefix_shares_gram::<3, 1>(); idx_pre_3_2 = prefix_shares_gram::<3, 2>(); idx_pre_3_3 = prefix_shares_gram::<3, 3>();
+    idx_pre_4_2 = prefix_shares_gram::<4, 2>(); idx_pre_4_3 = prefix_shares_gram::<4, 3>(); idx_pre_5_4 = prefix_shares_gram::<5, 4>();
     idx_1r1_q1_s1 = prepare_case::<1, 1, 1, 1, 1>([(0, 1)], [(0, 1)], 1);
     idx_2r1_q1_s1 = prepare_case::<2, 1, 1, 1, 1>([(0, 1)], [(0, 1)], 1);
     idx_2r2_q2_s1 = prepare_case::<2, 2, 1, 2, 1>([(0, 2)], [(0, 2)], 1);
